@@ -14,7 +14,11 @@ RULE = ('file names over printable ASCII without backslash and slash: every sing
         'non-trivial when it contains a character outside [A-Za-z0-9_.]; distinct by exact text. System depfile-entry stage: real gcc / '
         'clang projects whose object paths (source directory at depth 1 and 2, file stem, every second time the program name) carry '
         'blank, $, # (always) and sampled other characters, with a header known only through the compiler-written depfile: build, '
-        'no-op build, change the header, build (both objects compiled, new value printed), no-op build')
+        'no-op build, change the header, build (both objects compiled, new value printed), no-op build. Step-directory stages: output '
+        'lists of ONE step drawn from families of related directory names (name, name + " #2", name + "2", name + ".d", name/sub, shorter '
+        'prefixes, the build directory itself, repeats) through the real directory_deps vs MakeHeader.directory_deps and vs the statement '
+        'itself (every distinct non-root output directory has exactly one sentinel); real configure + GNU Make on multi-output build_steps '
+        'with such output directories (every output at its path, every directory created, no stray entries, second build a no-op)')
 TRUSTED = ('R model Make/MakeNames.v (rule-header word reading) validated against /usr/bin/make on this run',
            'R model Make/MakeHeader.v (splitting of a whole rule header, patsubst %/.dir,%) validated against /usr/bin/make on this run',
            'the representable set is established at run time with a hand-written reference escaping (reference_escape) run by the real make',
@@ -466,6 +470,73 @@ def stage_system_names(rep, rng, thorough):
     return bad
 
 
+def stage_system_step_dirs(rep, rng, thorough):
+    """Real configure + make on projects whose steps have SEVERAL outputs lying in different directories with related names:
+    sibling directories one of whose names is a character-wise prefix of the other (gen / gen #2 / gen2 / gen.d), nested
+    directories (gen/sub), the build directory itself, a directory used twice. Every output is created at exactly its path,
+    every output directory exists, nothing else appears in the build directory, a second build is a no-op."""
+    from . import project
+    bad = 0
+    bases = ['gen', 'o ut', 'g#n', 'a$b', 'x+y', 'obj', 'a']
+    for idx in range(8 if thorough else 3):
+        lines, steps = ["project('p')"], []
+        for k in range(2):
+            base = bases[(idx * 2 + k) % len(bases)] if rng.random() < 0.7 else rng.choice(bases)
+            fam = [base, base + ' #2', base + '2', base + '.d', base + ' (x86)', base + '/sub', base + '/' + base + '2', '']
+            # always a pair (name, name + more characters) of siblings, in either order, plus further members
+            dirs = [base, rng.choice(fam[1:5])]
+            if rng.random() < 0.5:
+                dirs.reverse()
+            for _ in range(rng.randint(0, 2)):
+                dirs.insert(rng.randint(0, len(dirs)), rng.choice(fam))
+            dirs = ['s%d/' % k + d if d else ('s%d' % k if rng.random() < 0.5 else '') for d in dirs] if k == 1 else dirs
+            outs = [(d + '/' if d else '') + 'o%d_%d.txt' % (k, j) for j, d in enumerate(dirs)]
+            lines.append('bs%d = build_step(%r, cmd=%r)' % (k, outs, [shtools.ARGVREC] + [x for o in outs for x in ('-o', o)] + ['step%d' % k]))
+            steps.append(outs)
+        lines.append('default(*(list(bs0) + list(bs1)))')
+        script = '\n'.join(lines) + '\n'
+        with project.Scratch('c04d') as s:
+            project.write_tree(s.src, {'build.bfg': script})
+            rc, out = project.configure(s.src, s.build, 'make')
+            if rc != 0:
+                rep.count('system:step-dirs configure_rejects')
+                rep.sample({'configure_failed': out[-300:], 'script': script})
+                continue
+            before = set(project.snapshot(s.build))
+            rcm, recs, mout = project.make(s.build, ['all'], stub_tools=True)
+            allowed = set()
+            for outs in steps:
+                allowed.add(outs[0] + '.stamp')
+                for o in outs:
+                    allowed.add(o)
+                    d = os.path.dirname(o)
+                    while d:
+                        allowed.update([d, d + '/.dir'])
+                        d = os.path.dirname(d)
+            after = set(project.snapshot(s.build))
+            stray = sorted(x for x in after - before if x not in allowed and not x.startswith('.'))
+            missing = sorted(o for outs in steps for o in outs if not os.path.isfile(os.path.join(s.build, o)))
+            nodirs = sorted(set(os.path.dirname(o) for outs in steps for o in outs if os.path.dirname(o) and
+                                not os.path.isdir(os.path.join(s.build, os.path.dirname(o)))))
+            ok = rcm == 0 and not missing and not stray
+            rcm2, recs2, mout2 = project.make(s.build, ['all'], stub_tools=True) if ok else (1, [], '')
+            ok = ok and rcm2 == 0 and not recs2
+            for outs in steps:
+                rep.case('sys-step-dirs:%r' % (outs,), True)
+            rep.count('system:step-dirs projects')
+            if not ok:
+                if rep.fail('Make: steps with outputs %r do not create exactly their outputs (make rc %d; directories never created %r, '
+                            'missing outputs %r, stray entries %r, second build rc %d ran %d step(s)): %s'
+                            % (steps, rcm, nodirs, missing, stray, rcm2, len(recs2), (mout if rcm or missing or stray else mout2)[-300:]),
+                            {'kind': 'step-dirs-system', 'script': script, 'steps': steps, 'directories_not_created': nodirs,
+                             'missing_outputs': missing, 'stray_entries': stray, 'make_output': mout[-1000:],
+                             'makefile_rules': [l for l in (project.read(s.build, 'Makefile') or '').split('\n') if '.dir' in l and ':' in l][:12]}):
+                    bad += 1
+        rep.traces += 1
+    rep.stage('system step directories', projects=8 if thorough else 3, failures=bad)
+    return bad
+
+
 class _Tree:
     """the minimal project interface of c07.SysRun.sync"""
 
@@ -711,6 +782,38 @@ def stage_w_rule(rep, rng, names, n):
             if len(sent) != 1:
                 continue
             calls.append(('make.sentinel_of', [pth.parent().suffix])); impl.append(sent[0].suffix)
+    # the sentinels of a WHOLE step (directory_deps on all its outputs): outputs in several directories, among them sibling
+    # directories whose names are character-wise prefixes of one another (gen, gen #2, gen2, gen.d), nested ones (gen/sub),
+    # the build directory itself and repeated directories. Tie: the model on the list of parent directories; and, with no
+    # model involved: every distinct directory other than the build directory has exactly one sentinel, dir/.dir
+    bad_dirs = 0
+    drng = random.Random('step-dirs:%d' % rep.seed)          # a stream of its own: the later stages keep their draws
+    for i in range(max(60, n // 2)):
+        base = drng.choice(['gen', 'out', 'a', 'obj'] + [x for x in pool if x and '/' not in x and x not in ('.', '..')])
+        fam = [base, base + ' #2', base + '2', base + '.d', base + '/sub', base + '/' + base, base[:-1], base[:1], '', '',
+               drng.choice(pool), 'lib']
+        dirs = [drng.choice(fam) for _ in range(drng.randint(2, 5))]
+        try:
+            outs = [Path((d + '/' if d else '') + 'o%d.txt' % j) for j, d in enumerate(dirs)]
+            parents = [o.parent().suffix for o in outs]
+            if parents != dirs:              # a spelling the path algebra normalises (C12): not a directory NAME
+                continue
+            sent = [s.suffix for s in directory_deps(outs)]
+        except ValueError:
+            continue
+        calls.append(('make.directory_deps', [parents])); impl.append(sent)
+        rep.case('stepdirs:%r' % (parents,), len(set(parents)) > 1)
+        rep.count('step-dirs:%d distinct directories%s' % (len(set(parents)), ', one a character-wise prefix of another' if any(
+            a != b and a and b.startswith(a) and not b.startswith(a + '/') for a in parents for b in parents) else ''))
+        want = sorted(set(d + '/.dir' for d in parents if d))
+        if sorted(sent) != want:
+            bad_dirs += 1
+            if bad_dirs <= 3:
+                rep.fail('make.directory_deps: a step with outputs %r has the directory sentinels %r; its output directories need %r '
+                         '(missing %r, unexpected or repeated %r)' % ([o.suffix for o in outs], sent, want, sorted(set(want) - set(sent)),
+                                                                    sorted(x for x in sent if x not in want or sent.count(x) > 1)),
+                         {'kind': 'step-dirs', 'outputs': [o.suffix for o in outs], 'sentinels': sent, 'needed': want})
+    rep.stage('directory sentinels of whole steps (model-independent)', failures=bad_dirs)
     w = mk.writer(StringIO())
     import os as _os
     esc = w.write(Function('patsubst', Pattern(_os.path.join('%', dir_sentinel)), Pattern('%'), var('@'), quoted=True), Syntax.shell)
@@ -720,6 +823,8 @@ def stage_w_rule(rep, rng, names, n):
     def dec(name, r):
         if name in ('make.header_text', 'make.sentinel_of'):
             return d_str(r)
+        if name == 'make.directory_deps':
+            return [d_str(x) for x in r]
         if name == 'make.function':
             return d_opt(lambda x: (d_str(x[0]), d_bool(x[1])), r)
         return d_opt(d_str, r)
@@ -945,6 +1050,7 @@ def run(rep):
     found += stage_call_names(rep, rng, names if thorough else names[1::3])
     found += stage_ninja(rep, rng, names)
     found += stage_system_names(rep, rng, thorough)
+    found += stage_system_step_dirs(rep, random.Random(rep.seed * 131 + 7), thorough)
     found += stage_system_location(rep, rng, thorough)
     found += stage_system_depfile_entry(rep, random.Random(rep.seed * 31 + 5), thorough)
     if dis and not rep.n_with_input:
